@@ -24,6 +24,8 @@ type Env struct {
 	at        *ssa.BasicBlock // for source-variable lookup in invariants
 	calleePkg string
 	bound     map[string]bool
+	atEnd     bool
+	hdr       *ssa.BasicBlock
 }
 
 func (c *fnCtx) newEnv(st, old *State) *Env {
@@ -37,7 +39,7 @@ func (c *fnCtx) newEnvAt(st *State, at *ssa.BasicBlock) *Env {
 }
 
 func (e *Env) child() *Env {
-	n := &Env{c: e.c, st: e.st, old: e.old, vars: map[string]SymVal{}, at: e.at, calleePkg: e.calleePkg, bound: map[string]bool{}}
+	n := &Env{c: e.c, st: e.st, old: e.old, vars: map[string]SymVal{}, at: e.at, calleePkg: e.calleePkg, bound: map[string]bool{}, atEnd: e.atEnd, hdr: e.hdr}
 	for k, v := range e.vars {
 		n.vars[k] = v
 	}
@@ -285,7 +287,7 @@ func (e *Env) lookup(name string) (SymVal, bool) {
 		// first use: ghost state starts as an unconstrained entry value
 		return mkMath(e.c.ghostEntry(name)), true
 	}
-	if v, ok := e.c.lookupVar(e.st, name, e.at); ok {
+	if v, ok := e.c.lookupVarX(e.st, name, e.at, e.atEnd, e.hdr); ok {
 		return v, true
 	}
 	return SymVal{}, false
@@ -1029,6 +1031,31 @@ func (e *Env) call(ex *ast.CallExpr) (SymVal, error) {
 			return SymVal{}, err
 		}
 		return SymVal{K: KFloat, S: app("fp.abs", x.S)}, nil
+	case "frz", "frzmono":
+		// ghost set "Freeze has been invoked on": a Bool array over references. Values that are not
+		// references (ints, strings, ...) are immutable and count as frozen.
+		comp := "$ghost:frz"
+		c.g.compKT[comp] = compKT{KBool, nil}
+		hn := c.comp(e.st, comp, "Bool")
+		if name == "frzmono" {
+			ho := c.comp(e.old, comp, "Bool")
+			return mkBool(fmt.Sprintf("(forall ((r Ref)) (! (=> (select %s r) (select %s r)) :pattern ((select %s r))))", ho, hn, hn)), nil
+		}
+		a, err := arg(0)
+		if err != nil {
+			return SymVal{}, err
+		}
+		switch a.K {
+		case KIface:
+			return mkBool(sOr(sEq(app("iref", a.S), "nil"), app("select", hn, app("iref", a.S)))), nil
+		case KRef:
+			return mkBool(app("select", hn, a.S)), nil
+		case KOpq:
+			return mkBool(app("select", hn, app("obj", a.S))), nil
+		case KSlice:
+			return mkBool(app("select", hn, a.Fs[0].S)), nil
+		}
+		return mkBool("true"), nil
 	case "refof":
 		a, err := arg(0)
 		if err != nil {
@@ -1054,7 +1081,7 @@ func (e *Env) call(ex *ast.CallExpr) (SymVal, error) {
 			return SymVal{K: KRef, S: "nil"}, nil
 		}
 		return SymVal{K: KRef, S: app("fld", r, i.S)}, nil
-	case "only", "unchanged":
+	case "only", "unchanged", "mono":
 		// only(Type.field, ref): the component changed at most at ref since old state
 		// unchanged(Type.field): the component is identical to the old state
 		sel, ok := ex.Args[0].(*ast.SelectorExpr)
@@ -1097,6 +1124,16 @@ func (e *Env) call(ex *ast.CallExpr) (SymVal, error) {
 			ho := c.comp(e.old, l.comp, srt)
 			if name == "unchanged" {
 				facts = append(facts, sEq(hn, ho))
+				continue
+			}
+			if name == "mono" {
+				if l.k != KBool {
+					return SymVal{}, fmt.Errorf("mono needs a bool field")
+				}
+				if hn == ho {
+					continue
+				}
+				facts = append(facts, fmt.Sprintf("(forall ((r Ref)) (! (=> (select %s r) (select %s r)) :pattern ((select %s r))))", ho, hn, hn))
 				continue
 			}
 			r, err := arg(1)
